@@ -152,6 +152,9 @@ func c13Case(ch choose.Chooser, rec *ev.Recorder, cfg walkCfg) error {
 		if s := r.storageCheck(); s != "" {
 			return fmt.Errorf("after %s and restart: %s\n  history: %s", plan, s, r.key())
 		}
+		if s := r.progressCheck(cfg.node, rec); s != "" {
+			return fmt.Errorf("after %s and restart: %s\n  history: %s", plan, s, r.key())
+		}
 		if (plan != "restart" || crashed != "") && known >= 1 && len(r.m.certs) > before {
 			nt = true
 		}
@@ -231,6 +234,51 @@ func c13Contradiction(ch choose.Chooser, rec *ev.Recorder, r *walkRes, cfg walkC
 		return fmt.Errorf("a certificate was submitted although start-up refused (%s)\n  history: %s", kind, r.key())
 	}
 	return nil
+}
+
+// progressCheck: "its next certificate has the correct height ..." presupposes that there is a next certificate. After the
+// final drain (faults stopped, the Agglayer settles whatever is undecided, status and epoch ticks until nothing moves) every
+// L2 bridge exit at or below the configured last block must be covered by a settled certificate. Not judged: configurations with a
+// certificate size limit (a range cut down to blocks without events is not sent, by policy, and the next attempt starts from
+// the same block again), and observation O6 (after a lost
+// database an InError certificate whose Agglayer header carries no previous exit root cannot be retried at height > 0).
+func (r *walkRes) progressCheck(nc nodeCfg, rec *ev.Recorder) string {
+	if nc.MaxCertSize > 0 {
+		return ""
+	}
+	r.m.mu.Lock()
+	defer r.m.mu.Unlock()
+	if n := len(r.m.certs); n > 0 {
+		last := r.m.certs[n-1]
+		if last.Status == agglayertypes.InError && !last.WithPrev && last.Cert.Height > 0 {
+			d := rawDB(r.storageDir)
+			var cnt int
+			err := d.QueryRow("SELECT count(*) FROM certificate_info WHERE height = ?", last.Cert.Height-1).Scan(&cnt)
+			d.Close()
+			if err == nil && cnt == 0 {
+				rec.Class("progress_not_judged_observation_O6")
+				return ""
+			}
+		}
+	}
+	settledTo, has := uint64(0), false
+	if r.m.lastSettled != nil {
+		settledTo, has = r.m.lastSettled.To, true
+	}
+	for _, b := range r.w.l2blocks {
+		if len(b.Bridges) == 0 || (nc.MaxL2Block > 0 && b.Num > nc.MaxL2Block) {
+			continue
+		}
+		if !has || b.Num > settledTo {
+			st := "none"
+			if n := len(r.m.certs); n > 0 {
+				st = fmt.Sprintf("height %d, %s", r.m.certs[n-1].Cert.Height, r.m.certs[n-1].Status)
+			}
+			return fmt.Sprintf("the node stopped making progress: L2 block %d holds a bridge exit, the last settled certificate ends at block %d (any settled: %v), the Agglayer's last certificate is [%s], nothing is undecided, and repeated status and epoch ticks produce no certificate (node's last error: %q; config %+v)", b.Num, settledTo, has, st, r.node.a.VerifLastError(), nc)
+		}
+	}
+	rec.Class("progress_checked_after_restart")
+	return ""
 }
 
 func firstViolationFrom(m *mAgglayer, from int, prop string) *violation {
